@@ -67,4 +67,25 @@ def GpaLive.ok (g : GpaLive) : Bool :=
   g.nTransforms == g.nSources && g.memberClass == "AlignmentSimilarity" && g.memberRotation &&
   g.memberMirror == g.mirrorArg && g.maxIterations == 100
 
+/-- storage of the state arrays of one alignment class after a history: the object is built on a first target held
+in dtype `first` (`i8` whole-pixel, `f4`, `f8`), re-aimed with `set_target` at a target held in dtype `second`, and every
+ndarray it holds (`attr`) is listed with its dtype next to the dtype the same attribute has in an object built directly on
+the second target (`-` = the attribute is missing on that side) -/
+structure DtypeRow where
+  cls : String
+  first : String
+  second : String
+  attrs : List (String × String × String)
+  deriving DecidableEq, Repr
+
+/-- no array of the re-aimed object is stored differently from the freshly built one (nothing allocated for the first
+target decides how the second is stored; no attribute appears or disappears with the history) -/
+def DtypeRow.ok (r : DtypeRow) : Bool := r.attrs.all fun a => a.2.1 == a.2.2 && a.2.1 != "-"
+
+/-- every single-alignment class is measured for all nine (first, second) dtype pairs -/
+def DtypeTableOK (t : List DtypeRow) : Bool :=
+  t.all DtypeRow.ok &&
+  alignmentClasses.all fun c => (t.filter fun r => r.cls == c).length == 9 &&
+    (t.filter fun r => r.cls == c).all fun r => !r.attrs.isEmpty
+
 end MenpoModel.C07
